@@ -19,9 +19,14 @@ Property theorems only; helper lemmas are in `Proofs/ServeRefine.lean`.
    data file (`Pipeline.compile`) holds exactly the rows of the records the Spec oracle decodes from
    the same file (`Pipeline.zoneOf`); hence the handler model on the compiled file returns
    `Spec.answer` of the declared zone. Helper lemmas are in `Proofs/Pipeline.lean`.
+7. `file_represents_declared_v2`, `file_served_as_declared_v2` (+ `_anycase`, `_file_order`),
+   `file_served_alike_all_layouts`: the same for the RocksDB v2 key layout (`compile .rdbV2`), so the
+   pipeline theorem covers all three storage configurations. Helper lemmas are in
+   `Proofs/PipelineV2.lean`.
 -/
 import DnsVerif.Proofs.ServeRefine
 import DnsVerif.Proofs.Pipeline
+import DnsVerif.Proofs.PipelineV2
 import DnsVerif.Proofs.ViewSort
 
 namespace DnsVerif.Props.C01
@@ -926,5 +931,174 @@ example :
   decide +kernel
 
 end Pipeline
+
+/-! ## 7. from the data file to the answer, v2 key layout (RocksDB, reversed sorted keys)
+
+`compile .rdbV2` runs the line codec with `useV2Keys`: a resource record is written under
+`marker ++ putreverseddom owner ++ loc` with the value the v1 configurations write under
+`loc ++ putdom owner`. `Proofs/PipelineV2.lean` relates the two codec runs pair by pair
+(`convertLine_rel2`), shows that the compiled v2 store is canonical (`ServeV2.V2Canonical`) and holds
+under `Key (reverse owner) loc` exactly the declared rows, and reduces `serve` on it to `serve` over the
+v1 layout on `ServeV2.v1Of store` (C02's `findGo` = label walk; `serve_v2_eq_v1_of_reply` needs the
+additional-section hypothesis for the records of the reply only), which is `Spec.answer`.
+
+Hypotheses: those of `file_served_as_declared` plus
+* `LinesV2OK lines` (decidable) — every dot-separated label of every owner name a line hands to
+  `makedomainkey` is shorter than 256 bytes. Forced (`longOwner` below): `putreverseddom` writes a
+  longer label WHOLE after its truncated length byte, `putdom` truncates the label as well, so the
+  v2 key is not the reversed wire form of the declared owner and the record is not served. -/
+
+section PipelineV2
+open Spec DnsVerif.Loc DnsVerif.Pipeline DnsVerif.PipelineProofs DnsVerif.PipelineV2
+
+/-- **Pipeline theorem, v2 layout**: the store `compile .rdbV2` builds holds, under the v2 key
+`marker ++ pack (reverse owner) ++ l`, exactly the rows the file declares for that owner and tag. -/
+theorem file_represents_declared_v2 (svcb : SvcbFn) (lines : List Bytes) (store : Store) (z : Zone)
+    (hc : compile .rdbV2 svcb lines = some store) (hz : zoneOf lines = some z) (hlines : LinesOK lines)
+    (hshort : LinesV2OK lines) (l : Bytes) (hl : TagOK l) (ls : List Bytes) (hn : NameOK ls) :
+    store.get (RevOrder.Key ls.reverse l) = (recsAt z.recs ls l).map rowOfRec :=
+  compile_v2_get svcb lines store z hc hz hlines hshort l hl ls hn
+
+/-- the compiled v2 store is canonical (`ServeV2.V2Canonical`, the `keys` half of `RepRRV2`) -/
+theorem file_compiled_v2_canonical (svcb : SvcbFn) (lines : List Bytes) (store : Store) (z : Zone)
+    (hc : compile .rdbV2 svcb lines = some store) (hz : zoneOf lines = some z) (hlines : LinesOK lines)
+    (hshort : LinesV2OK lines) : ServeV2.V2Canonical store :=
+  compile_v2_canonical svcb lines store z hc hz hlines hshort
+
+/-- **Served as declared, v2 layout.** A data file that compiles for RocksDB with v2 keys (any SVCB
+parameter parser) and whose declared records are well-formed: for a client in location `l`, every
+`NameOK` (lower-case) query name, every qtype (DS included), class and answer limit, the handler model
+on the compiled store — closest-key searches `findGo` for the zone cut and the answer — replies with
+exactly `Spec.answer` of the declared zone: all four sections, rcode and AA. Hypotheses as in
+`file_served_as_declared`, plus `LinesV2OK`. -/
+theorem file_served_as_declared_v2 (svcb : SvcbFn) (lines : List Bytes) (store : Store) (z : Zone)
+    (hc : compile .rdbV2 svcb lines = some store) (hz : zoneOf lines = some z) (hlines : LinesOK lines)
+    (hshort : LinesV2OK lines) (hwf : WellFormed z.recs) (l : Bytes) (hl : TagOK l)
+    (q : List Bytes) (hq : NameOK q) (qtype qclass maxAns : Nat)
+    (ht : TargetsOK ((Spec.answer ⟨viewSort l z.recs, z.maps, z.subnets⟩ q qtype qclass maxAns l).answer ++
+                     (Spec.answer ⟨viewSort l z.recs, z.maps, z.subnets⟩ q qtype qclass maxAns l).authority)) :
+    serve ⟨.rdbV2, store, l⟩ ⟨pack q, pack q, qtype, qclass, maxAns⟩ =
+      .reply (ofSpec (Spec.answer ⟨viewSort l z.recs, z.maps, z.subnets⟩ q qtype qclass maxAns l)) := by
+  obtain ⟨_, _, _, h0, hr⟩ := compile_v2_represents svcb lines store z hc hz hlines hshort l hl
+  refine compile_v2_serve_of_reply svcb lines store z hc hz hlines hshort l hl q hq qtype qclass maxAns _
+    (serve_v1_full .rdbV1 (by decide) _ z.recs l h0 hr hwf q hq qtype qclass maxAns z.maps z.subnets ht) ?_
+  show ∀ rr ∈ List.map ofSpecRR _ ++ List.map ofSpecRR _, ServeV2.RROK rr
+  rw [← List.map_append]
+  exact rrok_of_targetsLowOK _ (ServeRefine.targetsLowOK_of_targetsOK _ ht)
+
+/-- **Served as declared, v2 layout, targets in any letter case** (as `file_served_as_declared_anycase`) -/
+theorem file_served_as_declared_v2_anycase (svcb : SvcbFn) (lines : List Bytes) (store : Store) (z : Zone)
+    (hc : compile .rdbV2 svcb lines = some store) (hz : zoneOf lines = some z) (hlines : LinesOK lines)
+    (hshort : LinesV2OK lines) (hwf : WellFormed z.recs) (l : Bytes) (hl : TagOK l)
+    (q : List Bytes) (hq : NameOK q) (qtype qclass maxAns : Nat)
+    (ht : TargetsLowOK ((Spec.answer ⟨viewSort l z.recs, z.maps, z.subnets⟩ q qtype qclass maxAns l).answer ++
+                        (Spec.answer ⟨viewSort l z.recs, z.maps, z.subnets⟩ q qtype qclass maxAns l).authority)) :
+    ∃ extra, serve ⟨.rdbV2, store, l⟩ ⟨pack q, pack q, qtype, qclass, maxAns⟩ =
+        .reply { ofSpec (Spec.answer ⟨viewSort l z.recs, z.maps, z.subnets⟩ q qtype qclass maxAns l) with
+                 extra := extra } ∧
+      extra.map ServeKey.lowGroup =
+        (Spec.answer ⟨viewSort l z.recs, z.maps, z.subnets⟩ q qtype qclass maxAns l).additional.map
+          ofSpecGroup := by
+  obtain ⟨_, _, _, h0, hr⟩ := compile_v2_represents svcb lines store z hc hz hlines hshort l hl
+  obtain ⟨extra, h1, he⟩ :=
+    serve_v1_full_ci .rdbV1 (by decide) _ z.recs l h0 hr hwf q hq qtype qclass maxAns z.maps z.subnets ht
+  refine ⟨extra, compile_v2_serve_of_reply svcb lines store z hc hz hlines hshort l hl q hq qtype qclass maxAns
+    _ h1 ?_, he⟩
+  show ∀ rr ∈ List.map ofSpecRR _ ++ List.map ofSpecRR _, ServeV2.RROK rr
+  rw [← List.map_append]
+  exact rrok_of_targetsLowOK _ ht
+
+/-- the same against the declared zone in file order, up to `AnswerPerm` (as
+`file_served_as_declared_file_order`) -/
+theorem file_served_as_declared_v2_file_order (svcb : SvcbFn) (lines : List Bytes) (store : Store) (z : Zone)
+    (hc : compile .rdbV2 svcb lines = some store) (hz : zoneOf lines = some z) (hlines : LinesOK lines)
+    (hshort : LinesV2OK lines) (hwf : WellFormed z.recs) (l : Bytes) (hl : TagOK l)
+    (q : List Bytes) (hq : NameOK q) (qtype qclass maxAns : Nat)
+    (ht : TargetsOK ((Spec.answer z q qtype qclass maxAns l).answer ++
+                     (Spec.answer z q qtype qclass maxAns l).authority)) :
+    ∃ A, serve ⟨.rdbV2, store, l⟩ ⟨pack q, pack q, qtype, qclass, maxAns⟩ = .reply (ofSpec A) ∧
+      DnsVerif.ViewSort.AnswerPerm A (Spec.answer z q qtype qclass maxAns l) := by
+  have hp := DnsVerif.ViewSort.answer_viewSort z.recs l z.maps z.subnets q qtype qclass maxAns
+  exact ⟨_, file_served_as_declared_v2 svcb lines store z hc hz hlines hshort hwf l hl q hq qtype qclass maxAns
+    (DnsVerif.ViewSort.targetsOK_perm (hp.answer.append hp.authority) ht), hp⟩
+
+/-- **All three storage configurations answer alike**: one data file compiled for CDB (either bitmap
+mode) or RocksDB v1 and for RocksDB v2 — the two handler models give the same reply (`Spec.answer` of
+the declared zone) to every `NameOK` query from every admissible location. -/
+theorem file_served_alike_all_layouts (b : Backend) (hb : (∃ sep, b = .cdb sep) ∨ b = .rdbV1) (svcb : SvcbFn)
+    (lines : List Bytes) (store₁ store₂ : Store) (z : Zone)
+    (hc1 : compile b svcb lines = some store₁) (hc2 : compile .rdbV2 svcb lines = some store₂)
+    (hz : zoneOf lines = some z) (hlines : LinesOK lines) (hshort : LinesV2OK lines)
+    (hwf : WellFormed z.recs) (l : Bytes) (hl : TagOK l)
+    (q : List Bytes) (hq : NameOK q) (qtype qclass maxAns : Nat)
+    (ht : TargetsOK ((Spec.answer ⟨viewSort l z.recs, z.maps, z.subnets⟩ q qtype qclass maxAns l).answer ++
+                     (Spec.answer ⟨viewSort l z.recs, z.maps, z.subnets⟩ q qtype qclass maxAns l).authority)) :
+    serve ⟨.rdbV2, store₂, l⟩ ⟨pack q, pack q, qtype, qclass, maxAns⟩ =
+      serve ⟨b, store₁, l⟩ ⟨pack q, pack q, qtype, qclass, maxAns⟩ := by
+  rw [file_served_as_declared_v2 svcb lines store₂ z hc2 hz hlines hshort hwf l hl q hq qtype qclass maxAns ht,
+    file_served_as_declared b hb svcb lines store₁ z hc1 hz hlines hwf l hl q hq qtype qclass maxAns ht]
+
+/-! non-vacuity on `sampleFile` -/
+
+example : LinesV2OK sampleFile := by decide +kernel
+example : ServeV2.V2Canonical (sampleStore .rdbV2) := by decide +kernel
+
+example :
+    serve ⟨.rdbV2, sampleStore .rdbV2, B "ab"⟩
+        ⟨pack (N ["www", "ex", "com"]), pack (N ["www", "ex", "com"]), 1, 1, 2⟩ =
+      .reply (ofSpec (Spec.answer ⟨viewSort (B "ab") sampleDeclared.recs, sampleDeclared.maps, sampleDeclared.subnets⟩
+        (N ["www", "ex", "com"]) 1 1 2 (B "ab"))) :=
+  file_served_as_declared_v2 noSvcb sampleFile _ sampleDeclared
+    (sampleStore_eq _ (by decide +kernel)) sampleDeclared_eq (by decide +kernel) (by decide +kernel)
+    (by decide +kernel) (B "ab") (by decide +kernel) _ (by decide +kernel) 1 1 2 (by decide +kernel)
+
+example :
+    serve ⟨.rdbV2, sampleStore .rdbV2, [0, 0]⟩
+        ⟨pack (N ["ex", "com"]), pack (N ["ex", "com"]), 15, 1, 1⟩ =
+      .reply (ofSpec (Spec.answer ⟨viewSort [0, 0] sampleDeclared.recs, sampleDeclared.maps, sampleDeclared.subnets⟩
+        (N ["ex", "com"]) 15 1 1 [0, 0])) :=
+  file_served_as_declared_v2 noSvcb sampleFile _ sampleDeclared
+    (sampleStore_eq _ (by decide +kernel)) sampleDeclared_eq (by decide +kernel) (by decide +kernel)
+    (by decide +kernel) [0, 0] (by decide) _ (by decide +kernel) 15 1 1 (by decide +kernel)
+
+/-! `LinesV2OK` is forced -/
+
+def longOwner : List Bytes :=
+  [B ".ex.com,5.5.5.5,a", B "+" ++ List.replicate 300 120 ++ B ".ex.com,1.2.3.4"]
+def x44 : List Bytes := [List.replicate 44 120, B "ex", B "com"]
+
+example :
+    LinesOK longOwner ∧ ¬ LinesV2OK longOwner ∧
+    ((zoneOf longOwner).map fun z => (decide (WellFormed z.recs),
+        (Spec.answer z x44 1 1 1 [0, 0]).rcode)) = some (true, 0) ∧
+    ((compile .rdbV1 noSvcb longOwner).map fun s =>
+        rcodeOf (serve ⟨.rdbV1, s, [0, 0]⟩ ⟨pack x44, pack x44, 1, 1, 1⟩)) = some (some 0) ∧
+    ((compile .rdbV2 noSvcb longOwner).map fun s => (decide (ServeV2.V2Canonical s),
+        rcodeOf (serve ⟨.rdbV2, s, [0, 0]⟩ ⟨pack x44, pack x44, 1, 1, 1⟩))) = some (false, some 3) := by
+  decide +kernel
+
+/-! `LinesOK` and `TagOK` stay forced -/
+
+def shortGeneric2 : List Bytes := [B ".ex.com,5.5.5.5,a", B ":www.ex.com,1,ab", B "+www.ex.com,1.2.3.4"]
+
+example :
+    ¬ LinesOK shortGeneric2 ∧ LinesV2OK shortGeneric2 ∧
+    ((zoneOf shortGeneric2).map fun z => (decide (WellFormed z.recs),
+        (Spec.answer z (N ["www", "ex", "com"]) 1 1 1 [0, 0]).rcode)) = some (true, 0) ∧
+    ((compile .rdbV2 noSvcb shortGeneric2).map fun s =>
+        rcodeOf (serve ⟨.rdbV2, s, [0, 0]⟩
+          ⟨pack (N ["www", "ex", "com"]), pack (N ["www", "ex", "com"]), 1, 1, 1⟩)) = some (some 3) := by
+  decide +kernel
+
+example :
+    ¬ TagOK [0, 0x4d] ∧ LinesOK mapTagged ∧ LinesV2OK mapTagged ∧
+    ((zoneOf mapTagged).map fun z => (decide (WellFormed z.recs),
+        (Spec.answer z (N ["www", "ex", "com"]) 1 1 1 [0, 0x4d]).rcode)) = some (true, 3) ∧
+    ((compile .rdbV2 noSvcb mapTagged).map fun s =>
+        rcodeOf (serve ⟨.rdbV2, s, [0, 0x4d]⟩
+          ⟨pack (N ["www", "ex", "com"]), pack (N ["www", "ex", "com"]), 1, 1, 1⟩)) = some (some 0) := by
+  decide +kernel
+
+end PipelineV2
 
 end DnsVerif.Props.C01
